@@ -32,6 +32,7 @@ func Label(i int) string  { return fmt.Sprintf("Q%dZ", i) }
 func Target(i int) string { return fmt.Sprintf("https://t.test/T%dE", i) }
 
 type docGen struct {
+	anchorDepth int // > 0 while the inside of an anchor is being generated (no further anchors there, also not in fallback content)
 	t     *rapid.T
 	next  *int
 	links []DocLink
@@ -109,12 +110,14 @@ func (g *docGen) inline(depth int, inAnchor bool) string {
 			if rapid.Bool().Draw(g.t, "anchorextra") {
 				inner = g.words(2) + " " + inner
 			}
+			g.anchorDepth++
 			if depth > 0 && rapid.IntRange(0, 3).Draw(g.t, "anchornest") == 0 {
 				g.nest = true
 				inner += " " + g.media() // a linked image
 			} else if depth > 0 && rapid.IntRange(0, 3).Draw(g.t, "anchorstyle") == 0 {
 				inner += " " + g.inline(depth-1, true)
 			}
+			g.anchorDepth--
 			b.WriteString(fmt.Sprintf(`<a href="%s">%s</a>`, Target(id), inner))
 		default:
 			b.WriteString(g.media())
@@ -141,7 +144,15 @@ func (g *docGen) media() string {
 		if rapid.Bool().Draw(g.t, "altextra") {
 			alt = g.words(3) + " " + alt
 		}
-		return fmt.Sprintf(`<%s src="%s" %s="%s">`, tag, Target(id), altAttr, alt) + closeTag(tag)
+		fallback := ""
+		if (tag == "video" || tag == "audio") && rapid.IntRange(0, 2).Draw(g.t, "fallback") == 0 {
+			// fallback content for browsers that cannot play it: never displayed, so its link is not one of the numbered links
+			fallback = g.words(3) + ` <img src="https://t.test/hidden-poster" alt="` + g.words(1) + `">`
+			if g.anchorDepth == 0 {
+				fallback += ` <a href="https://t.test/hidden-fallback">` + g.words(1) + `</a>`
+			}
+		}
+		return fmt.Sprintf(`<%s src="%s" %s="%s">`, tag, Target(id), altAttr, alt) + fallback + closeTag(tag)
 	}
 }
 
